@@ -7,7 +7,7 @@
 (*     step on what the code really did                                    *)
 (* Environment: TRACE=<file.ndjson>                                        *)
 (***************************************************************************)
-EXTENDS TraceBase, MonC01, MonC07, MonC08, MonC09, MonC10, MonC11, MonC12, MonC13, MonC15, MonC19
+EXTENDS TraceBase, MonC01, MonC07, MonC08, MonC09, MonC10, MonC11, MonC12, MonC13, MonC14, MonC15, MonC17, MonC19
 
 On(name) == name \in DOMAIN IOEnv /\ IOEnv[name] = "1"
 
@@ -16,9 +16,10 @@ VARIABLES l,        \* next line of the trace
           env,      \* run parameters from the last reset event
           mon,      \* node index -> monitor states
           conf,     \* conformance bookkeeping [calls, ndiv, divs]
-          viol      \* monitor violations [n, list]
+          viol,     \* monitor violations [n, list]
+          gm        \* cross-instance monitor state (C17 twin lanes)
 
-vars == <<l, nodes, env, mon, conf, viol>>
+vars == <<l, nodes, env, mon, conf, viol, gm>>
 
 MaxList == 12
 
@@ -27,8 +28,9 @@ EnvInit == [forge |-> FALSE, junk |-> FALSE, ordered |-> FALSE, dbg |-> TRUE, ru
 Init == /\ l = 1 /\ nodes = <<>> /\ env = EnvInit /\ mon = <<>>
         /\ conf = [calls |-> 0, ndiv |-> 0, divs |-> <<>>]
         /\ viol = [n |-> 0, list |-> <<>>]
+        /\ gm = C17Init
 
-MonInit == [C01 |-> C01Init, C07 |-> C07Init, C11 |-> C11Init, C12 |-> C12Init, C08 |-> C08Init, C09 |-> C09Init, C10 |-> C10Init, C13 |-> C13Init, C15 |-> C15Init, C19 |-> C19Init]
+MonInit == [C01 |-> C01Init, C07 |-> C07Init, C11 |-> C11Init, C12 |-> C12Init, C08 |-> C08Init, C09 |-> C09Init, C10 |-> C10Init, C13 |-> C13Init, C14 |-> C14Init, C15 |-> C15Init, C19 |-> C19Init]
 
 ObsOf(e, prev) ==
     [node |-> e.node, call |-> e.call, args |-> e.args, res |-> e.res, out |-> e.out,
@@ -47,6 +49,7 @@ MonStep(m, o) ==
      C10 |-> IF On("MON_C10") THEN C10Step(m.C10, o) ELSE m.C10,
      C12 |-> IF On("MON_C12") THEN C12Step(m.C12, o) ELSE m.C12,
      C13 |-> IF On("MON_C13") THEN C13Step(m.C13, o) ELSE m.C13,
+     C14 |-> IF On("MON_C14") THEN C14Step(m.C14, o) ELSE m.C14,
      C15 |-> IF On("MON_C15") THEN C15Step(m.C15, o) ELSE m.C15,
      C19 |-> IF On("MON_C19") THEN C19Step(m.C19, o) ELSE m.C19]
 
@@ -65,17 +68,22 @@ Next ==
        CASE e.ev = "reset" ->
               /\ nodes' = <<>> /\ mon' = <<>>
               /\ env' = [f \in DOMAIN EnvInit |-> IF HasField(e, f) THEN e[f] ELSE EnvInit[f]]
+              /\ gm' = C17Init
               /\ UNCHANGED <<conf, viol>>
          [] e.ev = "new" ->
               /\ nodes' = (e.node :> [st |-> AbsState(e, StaticOf(e)), pub |-> e.pub, hook |-> e.hook]) @@ nodes
               /\ mon' = (e.node :> MonInit) @@ mon
-              /\ UNCHANGED <<env, conf, viol>>
+              /\ UNCHANGED <<env, conf, viol, gm>>
          [] e.ev = "call" ->
               LET prev == nodes[e.node]
                   d == IF On("NOCONF") THEN {} ELSE Divergence(prev.st, e, env.dbg)
                   panic == e.res = "Panic"
                   m1 == IF panic THEN mon[e.node] ELSE MonStep(mon[e.node], ObsOf(e, prev))
-                  nv == IF panic THEN <<>> ELSE NewViols(m1, l, e)
+                  g1 == IF panic \/ ~On("MON_C17") THEN gm ELSE C17Step(gm, ObsOf(e, prev))
+                  nv == IF panic THEN <<>>
+                        ELSE NewViols(m1, l, e)
+                             \o (IF g1.v = {} THEN <<>>
+                                 ELSE <<[line |-> l, run |-> env.run, call |-> e.call, v |-> ("C17" :> g1.v)]>>)
               IN /\ conf' = [calls |-> conf.calls + 1,
                              ndiv |-> IF d = {} THEN conf.ndiv ELSE conf.ndiv + 1,
                              divs |-> IF d = {} \/ Len(conf.divs) >= MaxList THEN conf.divs
@@ -85,6 +93,7 @@ Next ==
                  /\ nodes' = IF panic THEN nodes
                              ELSE (e.node :> [st |-> AbsState(e, prev.st), pub |-> e.pub, hook |-> e.hook]) @@ nodes
                  /\ mon' = (e.node :> m1) @@ mon
+                 /\ gm' = g1
                  /\ UNCHANGED env
          [] e.ev = "group" ->
               \* a driver-level comparison across several instances / runs
@@ -93,8 +102,8 @@ Next ==
                         ELSE <<[line |-> l, run |-> env.run, call |-> "group:" \o e.kind, v |-> (e.prop :> gv)]>>
               IN /\ viol' = [n |-> viol.n + Len(nv),
                              list |-> IF Len(viol.list) >= MaxList THEN viol.list ELSE viol.list \o nv]
-                 /\ UNCHANGED <<nodes, env, mon, conf>>
-         [] OTHER -> UNCHANGED <<nodes, env, mon, conf, viol>>
+                 /\ UNCHANGED <<nodes, env, mon, conf, gm>>
+         [] OTHER -> UNCHANGED <<nodes, env, mon, conf, viol, gm>>
 
 Spec == Init /\ [][Next]_vars
 
